@@ -471,6 +471,9 @@ def parseCase : P (String × String) := do
   match (← tok) with
   | "U" => runU
   | "K" => runK
+  -- L lines: key shapes outside the one-layer model (dynamic-macro actions that fire late); the
+  -- real run is judged by the runner's model-free oracle (runner/props.py `_c19_free_oracle`)
+  | "L" => return ("L", "-")
   | z => throw s!"bad kind {z}"
 
 def run (line : String) : String × String :=
